@@ -176,6 +176,10 @@ def run(ctx):
     fb = need(where, calling(g, attr="force_break", recv="self"), "self.force_break(...)")
     k2_unreachable(ctx, "R5-break-needs-confirm", where, g, {"holder_info is not None": False}, fb, "break_lock breaks only a lock whose info it could read")
     conf_tests = [n.id for n in g.nodes if n.kind == "test" and any(call_attr(c) in ("confirm_action", "get_boolean") for c in calls_in(n.ast))]
+    # what is broken is what the user was shown: the examined info is not re-read between the prompt and force_break
+
+    re_read = sorted(set(g.find(assigns_to("holder_info"))) & g.reach(conf_tests))
+    ctx.check("R5-break-examined", where, not re_read and all(any(norm(a) == "holder_info" for c in g.nodes[i].calls() if call_attr(c) == "force_break" for a in c.args) for i in fb), "break_lock hands force_break the holder info it peeked before asking the user (no re-peek after the confirmation)", construct="; ".join(g.nodes[i].text() for i in re_read), message="break_lock re-reads the lock after the user confirmed and breaks whatever is there now: if the examined holder released and somebody else acquired in the meantime, the later holder's lock is broken — force_break's own comparison then checks the lock against itself")
     cut = {(t, b, l) for t in conf_tests for (b, l) in g.succ[t] if l == "T"}
     allb = fb + calling(g, attr="force_break_corrupt", recv="self")
     ok = bool(conf_tests) and not (set(allb) & g.copy_without(cut).reachable_from_entry())
